@@ -39,7 +39,7 @@ def _create_task_sites(ctx: Ctx, c: Collector) -> int:
     """Inventory: every create_task site must be one of the owned groups analysed below."""
     owned = {RUN, SETTLED, "mosaik.proxies.RemoteProxy.__init__", "mosaik.scenario.World.get_data.request_data"}
     n = 0
-    for fi in ctx.prog.all_functions():
+    for fi in analysis_units(ctx.prog):
         s = summarise(ctx.prog, fi)
         for e in s.of_kind("call"):
             if _is_create_task(e.term):
@@ -131,7 +131,11 @@ def _settled_tasks(ctx: Ctx, c: Collector) -> None:
             pr.append("not all created waiter tasks are handed to asyncio.wait")
         fin = [e for e in s.events if e.kind == "call" and e.term[1][0] == "attr" and e.term[1][2] == "cancel" and any(r == "finally" for _, r in e.tries)]
         in_try = any(r == "body" for _, r in w.tries)
-        ok = in_try and fin and len(fin[0].iters) >= 1 and arg is not None and T.strip(fin[0].iters[-1][2]) == arg
+        # cancelled in the finally block: by a loop over the collection handed to asyncio.wait, or one by one
+        # (a loop over a literal collection is read as one cancel per element)
+        by_loop = bool(fin) and len(fin[0].iters) >= 1 and arg is not None and T.strip(fin[0].iters[-1][2]) == arg
+        one_by_one = bool(created) and {T.strip(e.term[1][1]) for e in fin} >= {T.strip(e.term) for e in created}
+        ok = in_try and fin and (by_loop or one_by_one)
         if not ok:
             plain = [e for e in s.events if e.kind == "call" and e.term[1][0] == "attr" and e.term[1][2] == "cancel"]
             if plain and not in_try:
